@@ -442,6 +442,8 @@ where
     }
 
     pub(crate) fn insert_with_hash(&self, key: Arc<K>, hash: u64, value: V) {
+        #[cfg(mini_moka_verif)]
+        crate::verif::point("ins.map");
         let (op, now) = self.base.do_insert_with_hash(key, hash, value);
         let hk = self.base.housekeeper.as_ref();
         Self::schedule_write_op(
@@ -463,6 +465,8 @@ where
         Arc<K>: Borrow<Q>,
         Q: Hash + Eq + ?Sized,
     {
+        #[cfg(mini_moka_verif)]
+        crate::verif::point("inv.map");
         if let Some(kv) = self.base.remove_entry(key) {
             let op = WriteOp::Remove(kv);
             let now = self.base.current_time_from_expiration_clock();
@@ -489,6 +493,8 @@ where
     /// popularity estimator of keys so that it retains the client activities of
     /// trying to retrieve an item.
     pub fn invalidate_all(&self) {
+        #[cfg(mini_moka_verif)]
+        crate::verif::point("invall");
         self.base.invalidate_all();
     }
 }
@@ -585,7 +591,11 @@ where
         // - We are doing a busy-loop here. We were originally calling `ch.send(op)?`,
         //   but we got a notable performance degradation.
         loop {
+            #[cfg(mini_moka_verif)]
+            crate::verif::point("hk.w");
             BaseCache::<K, V, S>::apply_reads_writes_if_needed(inner, ch, now, housekeeper);
+            #[cfg(mini_moka_verif)]
+            crate::verif::point("send.w");
             match ch.try_send(op) {
                 Ok(()) => break,
                 Err(TrySendError::Full(op1)) => {
